@@ -90,6 +90,7 @@ Level1 ==
        [] Family \in {"mating", "avoid"} -> k' \in {s \in 1..64 : File(s) \in {1, 8} \/ Rank(s) \in {1, 8}}   \* the bare king, on the edge
        [] Family = "terminal2" -> k' \in {1, 8, 57, 64}                                                     \* the king that has no move, in a corner
        [] Family = "minor" -> k' \in {1, 8, 57, 64}                                                         \* the defending king, in a corner
+       [] Family = "perp" -> k' \in {s \in 1..64 : File(s) \in {1, 8} \/ Rank(s) \in {1, 8}}                 \* the king that is checked for ever, on the edge
        [] Family = "ep" -> k' \in 1..8           \* file of the capturing pawn
        [] Family = "promo" -> k' \in 1..8        \* file of the pawn
        [] Family = "ep2" -> k' \in 2..7          \* file of the pawn that double-stepped
@@ -142,6 +143,21 @@ Level2 ==
               /\ pos' = [b |-> Place(Place(Place(Place(Empty, sk, Pc(c, K)), sq, Pc(c, pc)), k, Pc(1 - c, K)), wsq, Pc(1 - c, wpc)),
                          stm |-> c, cr |-> {}, ep |-> 0]
               /\ idx' = pc + 8 * sq + 512 * sk + 7 * wsq + wpc
+       [] Family = "perp" ->
+            \* perpetual check against the side that is AHEAD: king + queen (colour c, to move) against a king on the edge (square k)
+            \* with at most one pawn next to it and two rooks and a pawn far away (ballast: the checked side is ahead in material and
+            \* has nothing but its king's steps).  Which members hold a FORCED perpetual is decided by EmitPerp from Chess.tla alone.
+            \E qs \in (1..64) \ {k} : \E sk \in {19, 22, 43, 46} \ {k, qs} : \E pw \in (0..64) \ {k, qs, sk} :
+              LET far == IF Rank(k) >= 5 THEN <<9, 10, 18>> ELSE <<49, 50, 42>>
+                  v == 1 - c
+                  b0 == Place(Place(Place(Empty, sk, Pc(c, K)), qs, Pc(c, Q)), k, Pc(v, K))
+                  b1 == IF pw = 0 THEN b0 ELSE Place(b0, pw, Pc(v, P))
+                  b2 == Place(Place(Place(b1, far[1], Pc(v, R)), far[2], Pc(v, R)), far[3], Pc(v, P))
+              IN /\ Dist(sk, k) >= 3
+                 /\ (pw # 0 => Dist(pw, k) = 1 /\ Rank(pw) \in 2..7)
+                 /\ {far[1], far[2], far[3]} \cap {k, qs, sk, pw} = {}
+                 /\ pos' = [b |-> b2, stm |-> c, cr |-> {}, ep |-> 0]
+                 /\ idx' = qs + 64 * pw + 4096 * sk
        [] Family = "ep" ->
             \E vf \in {k - 1, k + 1} \cap (1..8) : \E ok \in 1..64 : \E pc \in {0, Q, R, B} : \E sq \in 1..64 :
               LET r == EpRank(c)  cap == Sq(k, r)  vic == Sq(vf, r)  tgt == IF c = 0 THEN vic + 8 ELSE vic - 8
@@ -200,4 +216,20 @@ Sound == stage = 2 /\ Kept /\ Cardinality(Kings(pos.b, 0)) = 1 /\ Cardinality(Ki
 EmitMating == (Sound /\ Mates(pos) # {}) => PrintT(<<"MATE1", ToFen(pos, 0, 1), {MoveText(m) : m \in Mates(pos)}>>)
 EmitAvoid == (Sound /\ LET L == Losing(pos) IN L # {} /\ L # Legal(pos)) =>
                PrintT(<<"AVOID", ToFen(pos, 0, 1), {MoveText(m) : m \in Losing(pos)}>>)
+\* forced perpetual: a quiet checking move m1 of the side to move after which the only legal reply m2 is a quiet king step, the
+\* move back (m1 reversed) is check again and the only legal reply to it is m2 reversed - which restores the position.  Printed
+\* with the two texts, from which the drivers build "one cycle" / "two cycles and a half" histories.
+Rev(m) == <<m[2], m[1], 0>>
+Only(S) == CHOOSE x \in S : TRUE
+PerpLines(p) ==
+  {m1 \in Legal(p) : /\ m1[3] = 0 /\ p.b[m1[2]] = 0
+                     /\ LET p1 == Apply(p, m1) IN
+                        /\ InCheck(p1.b, p1.stm) /\ Cardinality(Legal(p1)) = 1
+                        /\ LET m2 == Only(Legal(p1))  p2 == Apply(p1, m2) IN
+                           /\ m2[3] = 0 /\ p1.b[m2[2]] = 0 /\ Rev(m1) \in Legal(p2)
+                           /\ LET p3 == Apply(p2, Rev(m1)) IN
+                              /\ InCheck(p3.b, p3.stm) /\ Legal(p3) = {Rev(m2)}
+                              /\ Identity(Apply(p3, Rev(m2))) = Identity(p)}
+EmitPerp == (Sound /\ PerpLines(pos) # {}) =>
+              PrintT(<<"PERP", ToFen(pos, 0, 1), {<<MoveText(m1), MoveText(Only(Legal(Apply(pos, m1))))>> : m1 \in PerpLines(pos)}>>)
 =============================================================================
